@@ -16,8 +16,10 @@
 (*  - reduce_stream completes with the fold over precisely those elements, *)
 (*    with an error if a source (outside a take_until trigger) or a        *)
 (*    cleanup reported one, and only then (or when a trigger's error was   *)
-(*    abandoned inside a stop_immediately, whose cleanup re-emits it); the *)
-(*    error completion carries an exception; never done; at most once;     *)
+(*    abandoned inside a stop_immediately, whose cleanup re-emits it; the  *)
+(*    error of a source below a type_erase may be dropped if a stop        *)
+(*    request won the race against that completion); the error completion  *)
+(*    carries an exception; never done; at most once;                      *)
 (*  - per source stream: next() never overlaps next() or cleanup(),        *)
 (*    cleanup() starts at most once and only when no next() is outstanding,*)
 (*    and the result is delivered only when every source whose next() was  *)
@@ -36,21 +38,21 @@ NullError == 0 - 997      \* the harness's code for an error completion whose ex
 NodeIds == 1..MaxN
 NoPipe == [cons |-> 0, kind |-> <<>>, kids |-> <<>>, arg |-> <<>>, root |-> 0]
 VARIABLES l, pipe, ph, nexted, yielded, ended, calls, keeps, elems, nres, stopped, started, liveOps, seenOps,
-          drvOut, errSeen, errMaybe
-vars == <<l, pipe, ph, nexted, yielded, ended, calls, keeps, elems, nres, stopped, started, liveOps, seenOps, drvOut, errSeen, errMaybe>>
+          drvOut, errSeen, errMaybe, errTE
+vars == <<l, pipe, ph, nexted, yielded, ended, calls, keeps, elems, nres, stopped, started, liveOps, seenOps, drvOut, errSeen, errMaybe, errTE>>
 
 Fresh(p) == /\ pipe' = p
             /\ ph' = [n \in NodeIds |-> "fresh"] /\ nexted' = [n \in NodeIds |-> FALSE]
             /\ yielded' = [n \in NodeIds |-> <<>>] /\ ended' = [n \in NodeIds |-> ""]
             /\ calls' = [n \in NodeIds |-> 0] /\ keeps' = [n \in NodeIds |-> <<>>]
             /\ elems' = <<>> /\ nres' = 0 /\ stopped' = FALSE /\ started' = FALSE
-            /\ liveOps' = {} /\ seenOps' = {} /\ drvOut' = FALSE /\ errSeen' = FALSE /\ errMaybe' = FALSE
+            /\ liveOps' = {} /\ seenOps' = {} /\ drvOut' = FALSE /\ errSeen' = FALSE /\ errMaybe' = FALSE /\ errTE' = FALSE
 Init == /\ l = 1 /\ pipe = NoPipe
         /\ ph = [n \in NodeIds |-> "fresh"] /\ nexted = [n \in NodeIds |-> FALSE]
         /\ yielded = [n \in NodeIds |-> <<>>] /\ ended = [n \in NodeIds |-> ""]
         /\ calls = [n \in NodeIds |-> 0] /\ keeps = [n \in NodeIds |-> <<>>]
         /\ elems = <<>> /\ nres = 0 /\ stopped = FALSE /\ started = FALSE
-        /\ liveOps = {} /\ seenOps = {} /\ drvOut = FALSE /\ errSeen = FALSE /\ errMaybe = FALSE
+        /\ liveOps = {} /\ seenOps = {} /\ drvOut = FALSE /\ errSeen = FALSE /\ errMaybe = FALSE /\ errTE = FALSE
         /\ TrackInit
 E == Log[l]
 Is(e) == l <= Len(Log) /\ E.e = e /\ l' = l + 1
@@ -65,6 +67,7 @@ RECURSIVE PDesc(_)
 PDesc(n) == UNION {{pipe.kids[n][i]} \cup PDesc(pipe.kids[n][i]) : i \in 1..Len(pipe.kids[n])}
 InTrig == UNION {{pipe.kids[q][2]} \cup PDesc(pipe.kids[q][2]) : q \in {m \in 1..PN : PKind(m) = "take_until"}}
 SrcNodes == {n \in 1..PN : PKind(n) = "src"}
+UnderTypeErase(n) == \E q \in 1..PN : PKind(q) = "type_erase" /\ n \in PDesc(q)
 UnderStopImm(n) == \E q \in 1..PN : PKind(q) = "stop_imm" /\ n \in PDesc(q)
 FnNodes == {n \in 1..PN : PKind(n) \in {"transform", "filter"}}
 Sync == {"transform", "filter", "adapt", "adapt2", "next_adapt", "cleanup_adapt", "type_erase"}
@@ -100,30 +103,33 @@ NothingDropped == /\ elems = Ex(pipe.root)
 Keep(vs) == UNCHANGED vs
 Reset == Is("Reset") /\ Fresh(E.pipe)
 Plain == /\ (Is("OpDestroy") \/ Is("SchedStart") \/ Is("Adapt") \/ Is("SrcStopSeen") \/ Is("Drain"))
-         /\ UNCHANGED <<pipe, ph, nexted, yielded, ended, calls, keeps, elems, nres, stopped, started, liveOps, seenOps, drvOut, errSeen, errMaybe>>
+         /\ UNCHANGED <<pipe, ph, nexted, yielded, ended, calls, keeps, elems, nres, stopped, started, liveOps, seenOps, drvOut, errSeen, errMaybe, errTE>>
 StartEv == /\ Is("Start") /\ ~started /\ started' = TRUE
-           /\ UNCHANGED <<pipe, ph, nexted, yielded, ended, calls, keeps, elems, nres, stopped, liveOps, seenOps, drvOut, errSeen, errMaybe>>
+           /\ UNCHANGED <<pipe, ph, nexted, yielded, ended, calls, keeps, elems, nres, stopped, liveOps, seenOps, drvOut, errSeen, errMaybe, errTE>>
 StopEv == /\ Is("Stop") /\ stopped' = TRUE
-          /\ UNCHANGED <<pipe, ph, nexted, yielded, ended, calls, keeps, elems, nres, started, liveOps, seenOps, drvOut, errSeen, errMaybe>>
+          /\ UNCHANGED <<pipe, ph, nexted, yielded, ended, calls, keeps, elems, nres, started, liveOps, seenOps, drvOut, errSeen, errMaybe, errTE>>
 DrvNext == /\ Is("DrvNext") /\ ~drvOut /\ drvOut' = TRUE /\ started' = TRUE
-           /\ UNCHANGED <<pipe, ph, nexted, yielded, ended, calls, keeps, elems, nres, stopped, liveOps, seenOps, errSeen, errMaybe>>
+           /\ UNCHANGED <<pipe, ph, nexted, yielded, ended, calls, keeps, elems, nres, stopped, liveOps, seenOps, errSeen, errMaybe, errTE>>
 DrvCleanup == /\ Is("DrvCleanup") /\ started' = TRUE
-              /\ UNCHANGED <<pipe, ph, nexted, yielded, ended, calls, keeps, elems, nres, stopped, liveOps, seenOps, drvOut, errSeen, errMaybe>>
+              /\ UNCHANGED <<pipe, ph, nexted, yielded, ended, calls, keeps, elems, nres, stopped, liveOps, seenOps, drvOut, errSeen, errMaybe, errTE>>
 OpCtor == /\ Is("OpCtor") /\ E.op \notin seenOps
           /\ liveOps' = liveOps \cup {E.op} /\ seenOps' = seenOps \cup {E.op}
-          /\ UNCHANGED <<pipe, ph, nexted, yielded, ended, calls, keeps, elems, nres, stopped, started, drvOut, errSeen, errMaybe>>
+          /\ UNCHANGED <<pipe, ph, nexted, yielded, ended, calls, keeps, elems, nres, stopped, started, drvOut, errSeen, errMaybe, errTE>>
 OpDtor == /\ Is("OpDtor") /\ E.live = 1 /\ E.running = 0 /\ E.op \in liveOps
           /\ liveOps' = liveOps \ {E.op}
-          /\ UNCHANGED <<pipe, ph, nexted, yielded, ended, calls, keeps, elems, nres, stopped, started, seenOps, drvOut, errSeen, errMaybe>>
+          /\ UNCHANGED <<pipe, ph, nexted, yielded, ended, calls, keeps, elems, nres, stopped, started, seenOps, drvOut, errSeen, errMaybe, errTE>>
 NextStart == /\ Is("NextStart") /\ nres = 0 /\ E.op \in liveOps
              /\ ph[E.s] \in {"fresh", "idle"}
              /\ ph' = [ph EXCEPT ![E.s] = "nextActive"] /\ nexted' = [nexted EXCEPT ![E.s] = TRUE]
-             /\ UNCHANGED <<pipe, yielded, ended, calls, keeps, elems, nres, stopped, started, liveOps, seenOps, drvOut, errSeen, errMaybe>>
+             /\ UNCHANGED <<pipe, yielded, ended, calls, keeps, elems, nres, stopped, started, liveOps, seenOps, drvOut, errSeen, errMaybe, errTE>>
 NextDone == /\ Is("NextDone") /\ ph[E.s] = "nextActive" /\ E.op \in liveOps
             /\ ph' = [ph EXCEPT ![E.s] = "idle"]
             /\ yielded' = [yielded EXCEPT ![E.s] = IF E.ch = "v" THEN Append(@, E.x) ELSE @]
             /\ ended' = [ended EXCEPT ![E.s] = IF E.ch = "v" THEN @ ELSE E.ch]
-            /\ errSeen' = (errSeen \/ (E.ch = "e" /\ E.s \notin InTrig))
+            /\ errSeen' = (errSeen \/ (E.ch = "e" /\ E.s \notin InTrig /\ ~UnderTypeErase(E.s)))
+            \* the error of a source below a type_erase: if a stop request wins the race against that completion, type_erase's stop
+            \* callback completes the next() with done instead and the error is dropped (decided when the result is delivered)
+            /\ errTE' = (errTE \/ (E.ch = "e" /\ E.s \notin InTrig /\ UnderTypeErase(E.s)))
             \* a trigger's error is swallowed by take_until - unless a stop_immediately inside the trigger abandoned that next():
             \* then it may come back as the error of the trigger's cleanup
             /\ errMaybe' = (errMaybe \/ (E.ch = "e" /\ E.s \in InTrig /\ UnderStopImm(E.s)))
@@ -131,46 +137,48 @@ NextDone == /\ Is("NextDone") /\ ph[E.s] = "nextActive" /\ E.op \in liveOps
 CleanupStart == /\ Is("CleanupStart") /\ nres = 0 /\ E.op \in liveOps
                 /\ ph[E.s] \in {"fresh", "idle"}
                 /\ ph' = [ph EXCEPT ![E.s] = "cleanupActive"]
-                /\ UNCHANGED <<pipe, nexted, yielded, ended, calls, keeps, elems, nres, stopped, started, liveOps, seenOps, drvOut, errSeen, errMaybe>>
+                /\ UNCHANGED <<pipe, nexted, yielded, ended, calls, keeps, elems, nres, stopped, started, liveOps, seenOps, drvOut, errSeen, errMaybe, errTE>>
 CleanupDone == /\ Is("CleanupDone") /\ ph[E.s] = "cleanupActive" /\ E.op \in liveOps
                /\ ph' = [ph EXCEPT ![E.s] = "cleaned"]
                /\ errSeen' = (errSeen \/ E.ch = "e")
-               /\ UNCHANGED <<pipe, nexted, yielded, ended, calls, keeps, elems, nres, stopped, started, liveOps, seenOps, drvOut, errMaybe>>
+               /\ UNCHANGED <<pipe, nexted, yielded, ended, calls, keeps, elems, nres, stopped, started, liveOps, seenOps, drvOut, errMaybe, errTE>>
 FnCall == /\ (Is("Fn") \/ Is("Pred")) /\ nres = 0
           /\ LET c == Ex(PKid(E.q)) IN calls[E.q] < Len(c) /\ c[calls[E.q] + 1] = E.x
           /\ calls' = [calls EXCEPT ![E.q] = @ + 1]
           /\ keeps' = [keeps EXCEPT ![E.q] = IF E.e = "Pred" THEN Append(@, E.keep) ELSE @]
-          /\ UNCHANGED <<pipe, ph, nexted, yielded, ended, elems, nres, stopped, started, liveOps, seenOps, drvOut, errSeen, errMaybe>>
+          /\ UNCHANGED <<pipe, ph, nexted, yielded, ended, elems, nres, stopped, started, liveOps, seenOps, drvOut, errSeen, errMaybe, errTE>>
 Elem == /\ Is("Elem") /\ nres = 0
         /\ LET c == Ex(pipe.root) IN Len(elems) < Len(c) /\ c[Len(elems) + 1] = E.x
         /\ elems' = Append(elems, E.x)
-        /\ UNCHANGED <<pipe, ph, nexted, yielded, ended, calls, keeps, nres, stopped, started, liveOps, seenOps, drvOut, errSeen, errMaybe>>
+        /\ UNCHANGED <<pipe, ph, nexted, yielded, ended, calls, keeps, nres, stopped, started, liveOps, seenOps, drvOut, errSeen, errMaybe, errTE>>
 Result == /\ Is("Result") /\ ~Manual /\ started /\ nres = 0
           /\ AllClean
-          /\ E.ch \in {"v", "e"} /\ (errSeen => E.ch = "e") /\ (E.ch = "e" => (errSeen \/ errMaybe))
+          /\ E.ch \in {"v", "e"}
+          /\ ((errSeen \/ (errTE /\ ~(stopped \/ Has("take_until")))) => E.ch = "e")
+          /\ (E.ch = "e" => (errSeen \/ errMaybe \/ errTE))
           /\ E.ch = "e" => E.v # NullError
           /\ E.ch = "v" => E.v = (IF pipe.cons = 0 THEN Fold(elems) ELSE 0)
           /\ ~CutPossible => NothingDropped
           /\ nres' = 1
-          /\ UNCHANGED <<pipe, ph, nexted, yielded, ended, calls, keeps, elems, stopped, started, liveOps, seenOps, drvOut, errSeen, errMaybe>>
+          /\ UNCHANGED <<pipe, ph, nexted, yielded, ended, calls, keeps, elems, stopped, started, liveOps, seenOps, drvOut, errSeen, errMaybe, errTE>>
 DrvNextDone == /\ Is("DrvNextDone") /\ Manual /\ drvOut /\ nres = 0 /\ drvOut' = FALSE
-               /\ UNCHANGED <<pipe, ph, nexted, yielded, ended, calls, keeps, elems, nres, stopped, started, liveOps, seenOps, errSeen, errMaybe>>
+               /\ UNCHANGED <<pipe, ph, nexted, yielded, ended, calls, keeps, elems, nres, stopped, started, liveOps, seenOps, errSeen, errMaybe, errTE>>
 DrvCleanupDone == /\ Is("DrvCleanupDone") /\ Manual /\ nres = 0 /\ ~drvOut
                   /\ AllClean
-                  /\ E.ch \in {"d", "e"} /\ (E.ch = "e") => ((errSeen \/ errMaybe) /\ E.v # NullError)
+                  /\ E.ch \in {"d", "e"} /\ (E.ch = "e") => ((errSeen \/ errMaybe \/ errTE) /\ E.v # NullError)
                   /\ nres' = 1
-                  /\ UNCHANGED <<pipe, ph, nexted, yielded, ended, calls, keeps, elems, stopped, started, liveOps, seenOps, drvOut, errSeen, errMaybe>>
+                  /\ UNCHANGED <<pipe, ph, nexted, yielded, ended, calls, keeps, elems, stopped, started, liveOps, seenOps, drvOut, errSeen, errMaybe, errTE>>
 QuiescentEv == /\ Is("Quiescent")
                /\ (stopped /\ Manual /\ RootImm) => ~drvOut
                \* (the outstanding next() of a never_stream is not visible to the harness)
                /\ (E.pending = 0 /\ started /\ ~Manual /\ ~Has("never")) => nres = 1
                /\ (E.pending = 0 /\ Manual /\ ~Has("never")) => ~drvOut
-               /\ UNCHANGED <<pipe, ph, nexted, yielded, ended, calls, keeps, elems, nres, stopped, started, liveOps, seenOps, drvOut, errSeen, errMaybe>>
+               /\ UNCHANGED <<pipe, ph, nexted, yielded, ended, calls, keeps, elems, nres, stopped, started, liveOps, seenOps, drvOut, errSeen, errMaybe, errTE>>
 EndEv == /\ Is("End")
          /\ E.live = 0 /\ E.bad = 0 /\ liveOps = {} /\ E.pending = 0
          /\ (started /\ ~Manual) => nres = 1
          /\ ~drvOut
-         /\ UNCHANGED <<pipe, ph, nexted, yielded, ended, calls, keeps, elems, nres, stopped, started, liveOps, seenOps, drvOut, errSeen, errMaybe>>
+         /\ UNCHANGED <<pipe, ph, nexted, yielded, ended, calls, keeps, elems, nres, stopped, started, liveOps, seenOps, drvOut, errSeen, errMaybe, errTE>>
 Next == \/ Reset \/ Plain \/ StartEv \/ StopEv \/ DrvNext \/ DrvCleanup \/ OpCtor \/ OpDtor \/ NextStart \/ NextDone
         \/ CleanupStart \/ CleanupDone \/ FnCall \/ Elem \/ Result \/ DrvNextDone \/ DrvCleanupDone \/ QuiescentEv \/ EndEv
 Spec == Init /\ [][Next]_vars
